@@ -140,6 +140,11 @@ class SymInterp1d:
             while i < n and self.x[i] < q:  # searchsorted side=left
                 i += 1
             i = min(max(i, 1), n - 1)
+            # both scipy code paths (np.interp / de Boor form) are exact at the knots
+            if q == self.x[i]:
+                return self.rows[i]
+            if q == self.x[i - 1]:
+                return self.rows[i - 1]
             return self._row_lin(i - 1, i, q)
         # previous
         i = 0
